@@ -310,3 +310,56 @@ package restful
 //@ ensures kept: same(f.Filters, old(f.Filters)) && same(f.Target, old(f.Target))
 //@ signals filter: old(f.Index) < len(old(f.Filters)) ==> calls() == traceCall(old(calls()), old(f.Filters)[old(f.Index)], request, response, f)
 //@ signals target: old(f.Index) >= len(old(f.Filters)) ==> calls() == traceCall(old(calls()), old(f.Target), request, response, nil)
+
+// ---------------------------------------------------------------------------
+// CORS filter (C08, C09)
+
+//@ func (Response).AddHeader
+//@ props C08 C09 C17
+//@ requires r.ResponseWriter != nil
+//@ modifies map hdrOf(r.ResponseWriter)
+//@ ensures added: appendedOne(hdrOf(r.ResponseWriter), header, value, old(hcount(hdrOf(r.ResponseWriter), header)))
+//@ ensures others: forallStr(func(k string) bool { return textproto.CanonicalMIMEHeaderKey(k) != textproto.CanonicalMIMEHeaderKey(header) ==> same(hvals(hdrOf(r.ResponseWriter), k), old(hvals(hdrOf(r.ResponseWriter), k))) })
+//@ nopanic
+
+//@ func (CrossOriginResourceSharing).isOriginAllowed
+//@ props C08 C09
+//@ ensures sound: result ==> originAllowed(c, origin)
+//@ ensures empty: origin == "" ==> !result
+//@ ensures nofunc: !result && c.AllowedDomainFunc == nil ==> !originAllowed(c, origin)
+//@ modifies nothing
+//@ nopanic
+//@ loop 0 invariant none: forall(0, it_i, func(k int) bool { return c.AllowedDomains[k] != ".*" && strings.ToLower(c.AllowedDomains[k]) != strings.ToLower(origin) })
+
+//@ func (CrossOriginResourceSharing).isValidAccessControlRequestMethod
+//@ props C09
+//@ ensures result == methodAllowed(allowedMethods, method)
+//@ modifies nothing
+//@ nopanic
+//@ loop 0 invariant none: forall(0, it_i, func(k int) bool { return allowedMethods[k] != method })
+
+//@ func (CrossOriginResourceSharing).isValidAccessControlRequestHeader
+//@ props C09
+//@ ensures result == headerAllowed(c, header)
+//@ modifies nothing
+//@ nopanic
+//@ loop 0 invariant none: forall(0, it_i, func(k int) bool { return strings.ToLower(c.AllowedHeaders[k]) != strings.ToLower(header) && c.AllowedHeaders[k] != "*" })
+
+//@ func (*Container).computeAllowedMethods
+//@ props C09 C17 C19
+//@ requires c != nil && req != nil && req.Request != nil && req.Request.URL != nil
+//@ ensures fresh: fresh(result)
+//@ modifies nothing
+
+//@ func (*CrossOriginResourceSharing).doPreflightRequest
+//@ props C09 C19
+//@ requires c != nil && req != nil && req.Request != nil && req.Request.URL != nil && resp != nil && resp.ResponseWriter != nil
+//@ requires container: c.Container != nil || DefaultContainer != nil
+//@ requires distinct: !same(hdrOf(resp.ResponseWriter), req.Request.Header)
+//@ modifies c.AllowedMethods, map hdrOf(resp.ResponseWriter)
+//@ ensures refused: !(methodAllowed(c.AllowedMethods, req.Request.Header.Get("Access-Control-Request-Method")) && headersAllowed(*c, req.Request.Header.Get("Access-Control-Request-Headers"))) ==> same(mapVal(hdrOf(resp.ResponseWriter)), old(mapVal(hdrOf(resp.ResponseWriter))))
+//@ ensures configured: len(old(c.AllowedMethods)) > 0 ==> same(c.AllowedMethods, old(c.AllowedMethods))
+//@ ensures granted: methodAllowed(c.AllowedMethods, req.Request.Header.Get("Access-Control-Request-Method")) && headersAllowed(*c, req.Request.Header.Get("Access-Control-Request-Headers")) ==> appendedOne(hdrOf(resp.ResponseWriter), "Access-Control-Allow-Methods", model_strings_Join(c.AllowedMethods, ","), old(hcount(hdrOf(resp.ResponseWriter), "Access-Control-Allow-Methods"))) && appendedOne(hdrOf(resp.ResponseWriter), "Access-Control-Allow-Headers", req.Request.Header.Get("Access-Control-Request-Headers"), old(hcount(hdrOf(resp.ResponseWriter), "Access-Control-Allow-Headers")))
+//@ opt opaque headerAllowed methodAllowed model_strings_Join model_strings_Trim model_splitPart model_splitCount
+//@ loop 0 invariant allowed: forall(0, it_i, func(k int) bool { return headerAllowed(*c, model_strings_Trim(model_splitPart(acrhs, ",", k), " ")) })
+//@ loop 0 invariant untouched: same(mapVal(hdrOf(resp.ResponseWriter)), old(mapVal(hdrOf(resp.ResponseWriter))))
